@@ -873,6 +873,7 @@ impl Version {
                 if first_key <= sst.first_key.as_slice()
                     && sst.last_key.as_slice() <= last_key
                     && !compaction.inputs.contains(&Setsum::from_digest(sst.setsum))
+                    && self.covered_below(compaction, level, sst)
                 {
                     to_add.push(sst);
                 }
@@ -896,6 +897,19 @@ impl Version {
                 compaction.inputs.append(&mut to_add);
             }
         }
+    }
+
+    // An sst may only join a compaction if every sst it overlaps in the levels between its own and the
+    // compaction's output level is an input too.  Otherwise its data would be written below data that
+    // is older and stays where it is.
+    fn covered_below(&self, compaction: &CompactionCore, level: usize, sst: &SstMetadata) -> bool {
+        (level + 1..=compaction.upper_level).all(|deeper| {
+            self.levels[deeper].ssts.iter().all(|other| {
+                other.last_key.as_slice() < sst.first_key.as_slice()
+                    || sst.last_key.as_slice() < other.first_key.as_slice()
+                    || compaction.inputs.contains(&Setsum::from_digest(other.setsum))
+            })
+        })
     }
 
     fn may_choose_compaction(&self, core: &CompactionCore) -> bool {
